@@ -42,6 +42,11 @@ def cases(tier, seed):
                           dmax=5 if tier == 'quick' else 8,
                           variants=variants if tier != 'quick'
                           else (variants[(ei + 1) % 8], variants[(ei + 5) % 8]))
+    # one-feature data is as legal as any for the identities between the
+    # views (formed points of shape (n, 1) look like a column of indicators)
+    if tier != 'quick' or ei % 3 == seed % 3:
+      dss = list(dss) + [dict(dss[0], d=1, classes=2, variant='plain',
+                              seed=dss[0]['seed'] + 97)]
     for di, ds in enumerate(dss):
       if tier == 'quick':
         cfgs = configs.light(name, ds['d'], ds['classes'])
@@ -320,6 +325,15 @@ def run_case(spec, j):
                 1e-300, det)
         if mp is not None:
           j.check('C02.form.prep-consulted', mp.n_calls > before, det)
+        # formed points with whole-number coordinates in an integer dtype
+        # are formed points for a learner with a preprocessor as well
+        Pw = np.minimum(np.abs(np.round(pool[idx[:, 0]])), 100)
+        tw_i = tw.transform(Pw.astype(np.int64))
+        tw_f = tw.transform(Pw)
+        j.check('C02.form.prep-' + kind,
+                np.array_equal(tw_i, tw_f, equal_nan=True),
+                dict(det, why='transform of formed integer-valued points',
+                     shape=Pw.shape))
         # structured index columns (runs, runs with a repeat and a skip,
         # constants): same points, whatever shortcut the indexing takes
         o = int(offset)
